@@ -208,6 +208,8 @@ def run_scenarios(kind, tier, seed, workdir, procs=16):
         jobs = _in_child(_mk_c16, tier, seed)
     elif kind == 'C03':
         jobs = _in_child(_mk_c03, tier, seed)
+    elif kind == 'C02':
+        jobs = _in_child(_mk_c02, tier, seed)
     elif kind == 'C12':
         jobs = _in_child(_mk_c12, tier, seed)
     elif kind == 'C12S':
@@ -268,6 +270,11 @@ def _mk_c01(tier, seed):
 def _mk_c12(tier, seed):
     import scenarios
     return scenarios.c12md5_jobs(tier, seed) + scenarios.c18q_jobs(tier, seed)
+
+
+def _mk_c02(tier, seed):
+    import scenarios
+    return scenarios.c02r_jobs(tier, seed)
 
 
 def _mk_c03(tier, seed):
